@@ -462,6 +462,9 @@ func init() {
 func c12Real(w *W) {
 	tran := w.simFallback([]string{"tcp", "tls+tcp", "ipc", "ws", "wss"}[w.Choose(simrt.SShape, 5)])
 	side := []string{"listen-config", "listen-inuse", "dial-refused"}[w.Choose(simrt.SShape, 3)]
+	if tran == "ipc" && w.Real && w.Choose(simrt.SShape, 2) == 0 {
+		side = "ipc-leftover-file"
+	}
 	w.SetShape("tran", tran)
 	w.SetShape("case", side)
 	srv, cli := tlsConfigs()
@@ -595,6 +598,100 @@ func c12Real(w *W) {
 			return
 		}
 		w.Probe("corrected-address-in-use")
+	case "ipc-leftover-file":
+		// the one piece of durable state mangos has: the socket file of an ipc
+		// listener. What a process that died left behind must not keep its
+		// successor from listening; what is not a dead socket must be left alone.
+		what := []string{"dead-socket", "regular-file", "live-listener"}[w.Choose(simrt.SShape, 3)]
+		w.SetShape("leftover", what)
+		var live net.Listener
+		switch what {
+		case "dead-socket":
+			ul, err := net.ListenUnix("unix", &net.UnixAddr{Name: sockPath, Net: "unix"})
+			if err != nil {
+				return
+			}
+			ul.SetUnlinkOnClose(false) // the owner dies without cleaning up
+			ul.Close()
+			if st, err := os.Stat(sockPath); err != nil || st.Mode()&os.ModeSocket == 0 {
+				return
+			}
+		case "regular-file":
+			if err := os.WriteFile(sockPath, []byte("precious data"), 0600); err != nil {
+				return
+			}
+		case "live-listener":
+			ul, err := net.Listen("unix", sockPath)
+			if err != nil {
+				return
+			}
+			live = ul
+			defer ul.Close()
+			go func() {
+				for {
+					c, err := ul.Accept()
+					if err != nil {
+						return
+					}
+					c.Close()
+				}
+			}()
+		}
+		e1, ok := bound(10*time.Second, "Listen("+what+" at the path)", l.Listen)
+		if !ok {
+			return
+		}
+		switch what {
+		case "dead-socket":
+			if e1 != nil {
+				w.Failf("C12/stale-socket-file-blocks-listen", "ipc: a socket file left behind by a dead process is at the path; Listen returns %v", e1)
+				return
+			}
+			w.Probe("ipc-dead-socket-file-replaced")
+		case "regular-file":
+			if e1 == nil {
+				w.Failf("C12/listen-over-foreign-file", "ipc: the path holds a regular file, Listen returned nil")
+				return
+			}
+			if b, err := os.ReadFile(sockPath); err != nil || string(b) != "precious data" {
+				w.Failf("C12/listen-removed-foreign-file", "ipc: the path held a regular file (not a socket); after the failed Listen (%v) the file reads (%q, %v)", e1, b, err)
+				return
+			}
+			// corrected: the application moves the file away and retries on the same listener
+			os.Remove(sockPath)
+			e2, ok := bound(10*time.Second, "Listen(retry, file removed)", l.Listen)
+			if !ok {
+				return
+			}
+			if e2 != nil {
+				w.Failf("C12/retry-failed:ipc", "ipc: Listen failed while a regular file occupied the path (%v); after it was removed the retry on the same listener returns %v", e1, e2)
+				return
+			}
+			w.Probe("ipc-foreign-file-left-alone")
+		case "live-listener":
+			if e1 == nil {
+				w.Failf("C12/listen-over-live-listener", "ipc: another listener is serving the path, Listen returned nil")
+				return
+			}
+			// the live owner is undisturbed: it still accepts at that path
+			c, err := net.DialTimeout("unix", sockPath, 5*time.Second)
+			if err != nil {
+				w.Failf("C12/listen-disturbed-live-listener", "ipc: after a Listen that failed with %v, the listener that owns the path no longer accepts: %v", e1, err)
+				return
+			}
+			c.Close()
+			live.Close()
+			os.Remove(sockPath)
+			e2, ok := bound(10*time.Second, "Listen(retry, owner gone)", l.Listen)
+			if !ok {
+				return
+			}
+			if e2 != nil {
+				w.Failf("C12/retry-failed:ipc", "ipc: Listen failed while another listener owned the path (%v); after that one went away the retry on the same listener returns %v", e1, e2)
+				return
+			}
+			w.Probe("ipc-live-listener-left-alone")
+		}
 	case "dial-refused":
 		// nobody listens yet: a synchronous Dial fails and can be retried once the listener is up
 		probe, err := net.Listen("tcp", loopIP+":0")
